@@ -14,11 +14,16 @@
   JSON ENCODER (namespace `SF.PropsJson.C17`): every supported document restores both bool
   stacks (`first`, `inArray`) exactly at top level; after any history of documents the probe
   writes the bytes a new encoder writes and ends with the same stacks.
+
+  JSON PARSER (namespace `SF.PropsJsonP.C17`): after ANY history of accepted `Parse` calls (any
+  byte strings) the parser is idle, and a grammatical probe document is accepted with exactly
+  its events, as on a new parser.
 -/
 import SF.Proofs.CborEnc
 import SF.Props.C05
 import SF.Proofs.UbjEncTop
 import SF.Proofs.JsonEncTop
+import SF.Proofs.JsonRefineTop
 namespace SF.Props.C17
 open SF SF.Cbor SF.Cbor.Cst
 
@@ -154,3 +159,25 @@ theorem json_encoder_reuse (o : Enc) (hist : List ETree) (probe : ETree)
   SF.Props.JsonEnc.json_encoder_reuse o hist probe hh hp s0 ho hf ha
 
 end SF.PropsJson.C17
+
+/-! ## JSON parser refinement (SF/Json/Parse.lean; proofs SF/Proofs/JsonRefine*.lean) -/
+
+namespace SF.PropsJsonP.C17
+open SF SF.Json SF.Json.Parse SF.Json.Float SF.Json.ParseP SF.Json.Grammar
+open SF.Json.RefineTop
+
+/-- an accepted `Parse` leaves the parser idle -/
+theorem json_parse_accepted_idle (p : P) (b : Bytes) (hp : p.inEscape = false) (h : (parse p b).2 = none) :
+    Idle (parse p b).1 ∧ (parse p b).1.inEscape = false :=
+  SF.Json.RefineTop.json_parse_accepted_idle p b hp h
+
+/-- C17 for the JSON parser: after ANY history of accepted `Parse` calls on ONE parser the probe
+document gets the same verdict and the same events as on a parser that never saw the history -/
+theorem json_parser_reuse (hist : List Bytes) (probe : Text) (hh : Accepted {} hist) (hp : probe.good) :
+    Reusable (parseSeq {} hist) ∧
+    (parse (parseSeq {} hist) probe.bytes).2 = none ∧ (parse {} probe.bytes).2 = none ∧
+    events (parse (parseSeq {} hist) probe.bytes).1 = events (parseSeq {} hist) ++ probe.v.events ∧
+    events (parse {} probe.bytes).1 = probe.v.events :=
+  SF.Json.RefineTop.json_parser_reuse hist probe hh hp
+
+end SF.PropsJsonP.C17
